@@ -27,6 +27,10 @@ Proof.
   - apply binop_eqb_eq in H. subst.
     match goal with E : (_ =? _) = true |- _ => apply Z.eqb_eq in E; subst end.
     cbn [step]. now rewrite (opw_eqb_get _ a a0 e), (opw_eqb_get _ b b0 e).
+  - apply binop_eqb_eq in H. subst.
+    match goal with E : N.eqb _ _ = true |- _ => apply N.eqb_eq in E; subst end.
+    match goal with E : (_ =? _) = true |- _ => apply Z.eqb_eq in E; subst end.
+    cbn [step]. now rewrite (opw_eqb_get _ a a0 e), (opw_eqb_get _ b b0 e).
   - apply pred_eqb_eq in H. subst.
     match goal with E : (_ =? _) = true |- _ => apply Z.eqb_eq in E; subst end.
     cbn [step]. now rewrite (opw_eqb_get _ a a0 e), (opw_eqb_get _ b b0 e).
